@@ -37,9 +37,22 @@ class FixAssertTupleTransform(LibcstResultTransformer, NameResolutionMixin):
 
     def _make_asserts(self, node: cst.Assert) -> List[cst.SimpleStatementLine]:
         return [
-            cst.SimpleStatementLine(body=[cst.Assert(test=element.value, msg=node.msg)])
+            cst.SimpleStatementLine(
+                body=[cst.Assert(test=self._as_test(element.value), msg=node.msg)]
+            )
             for element in node.test.elements
         ]
+
+    def _as_test(self, expr: cst.BaseExpression) -> cst.BaseExpression:
+        # Inside the tuple's parentheses an element may span lines or be `x := 1`;
+        # as the test of its own assert statement it needs parentheses of its own
+        if expr.lpar:
+            return expr
+        if isinstance(expr, cst.NamedExpr) or "\n" in cst.Module([]).code_for_node(
+            expr
+        ):
+            return expr.with_changes(lpar=[cst.LeftParen()], rpar=[cst.RightParen()])
+        return expr
 
     def _report_new_lines(
         self, original_node: cst.SimpleStatementLine, newlines_count: int
